@@ -514,10 +514,10 @@ def main(argv):
         p = write_replay(pid, rtier, seed, "build", [{"error": harness_fail}],
                          "the harness (path dependency on /repo/konst) no longer compiles against /repo")
         violations.append((p, " no-failing-input-found"))
+    obligation_replay = None
     if po["failed"]:
-        p = write_replay(pid, rtier, seed, "obligation", [{"failed": po["failed"]}],
-                         "proof obligations that no longer check: " + "; ".join(po["failed"])[:800])
-        violations.append((p, " no-failing-input-found"))
+        obligation_replay = write_replay(pid, rtier, seed, "obligation", [{"failed": po["failed"]}],
+                                         "proof obligations that no longer check: " + "; ".join(po["failed"])[:800])
 
     if crashes:
         p = write_replay(pid, rtier, seed, "crash", crashes,
@@ -535,6 +535,10 @@ def main(argv):
         p = write_replay(pid, rtier, seed, "input", new_viol,
                          "implementation differs from std/the documented oracle on these inputs")
         violations.append((p, ""))
+    if obligation_replay:
+        # a broken proof obligation is reported with the failing input when the search found one
+        found_input = bool(new_viol) or bool(crashes)
+        violations.insert(0, (obligation_replay, "" if found_input else " no-failing-input-found"))
     corr = [r for r in cmp_.impl_ne_model]
     if corr and not new_viol:
         # correspondence broken and no failing input in the whole transcript
